@@ -30,7 +30,7 @@ func (nopSub) OnNext(notifications.Topic, notifications.Event) {}
 func (nopSub) OnClose(notifications.Topic)                     {}
 
 type ltOp struct {
-	kind    string // start | link | finish | finisherr | clear
+	kind    string // start | link | pause | finish | finisherr | clear
 	req     int
 	cid     int
 	present bool
@@ -120,6 +120,9 @@ func (s *c19) Build(w *World) {
 			}
 			s.ops = append(s.ops, ltOp{kind: kind, req: active[j]})
 			active = append(active[:j], active[j+1:]...)
+		case len(active) > 0 && t.Chance(80):
+			// the response is paused (and carries on later): nothing about what it has sent may be forgotten
+			s.ops = append(s.ops, ltOp{kind: "pause", req: active[t.Draw(len(active))]})
 		case len(active) > 0:
 			s.ops = append(s.ops, ltOp{kind: "link", req: active[t.Draw(len(active))], cid: t.Draw(len(s.cids)), present: !t.Chance(200)})
 		}
@@ -229,6 +232,15 @@ func (s *c19) exec(w *World, i int) {
 		w.Effect("op %d finish r%d -> %d", i, op.req, st)
 		if st != want {
 			s.viol = &Violation{Property: "C19", Rule: "R2", Signature: "completeness-status", Detail: fmt.Sprintf("FinishRequest reported %d, want %d (missing link seen: %v); %s", st, want, s.missing[op.req], where)}
+		}
+	case "pause":
+		_ = s.streams[op.req].Transaction(func(rb responseassembler.ResponseBuilder) error {
+			rb.PauseRequest()
+			return nil
+		})
+		w.Effect("op %d pause r%d", i, op.req)
+		if s.viol == nil {
+			s.viol = s.checkTrackerState(where)
 		}
 	case "finisherr":
 		code := []graphsync.ResponseStatusCode{graphsync.RequestCancelled, graphsync.RequestFailedUnknown, graphsync.RequestFailedContentNotFound}[op.req%3]
